@@ -276,3 +276,15 @@ Definition project_name (proj_override : option str) (title : str) : str :=
   nonempty_or proj_override (lower (kebab_case title) ++ client_suffix).
 Definition package_name (pkg_override proj_override : option str) (title : str) : str :=
   nonempty_or pkg_override (replace_dash (project_name proj_override title)).
+
+(* ------------------------------------------------------------------------------------------------ 1b. writers and docstring literals *)
+(* --file-encoding: EVERY call that writes a file passes encoding=config.file_encoding (and there is at least one writer) *)
+Definition writer_encoded (w : str * str * str * bool) : bool := snd w.
+Definition writers_ok : bool := forallb writer_encoded gen_writers && negb (Nat.eqb (List.length gen_writers) 0).
+(* docstrings_on_attributes and every other docstring: document text reaches the inside of a triple-quoted literal only through
+   helpers.jinja's safe_docstring (raw literal when the text holds a backslash); client.py.jinja's own literals hold template-fixed text *)
+Definition documented_docstring_literals : list (str * str) :=
+  [ (s2l "templates/helpers.jinja", s2l "content"); (s2l "templates/client.py.jinja", star) ].
+Definition docstring_literal_ok (r : str * str) : bool :=
+  existsb (fun d => str_eqb (fst d) (fst r) && pat_match (snd d) (snd r)) documented_docstring_literals.
+Definition docstring_literals_ok : bool := forallb docstring_literal_ok gen_docstring_literals.
